@@ -179,6 +179,42 @@ def seq_extremes(ctx):
     return True
 
 
+def catalogue_sweep(ctx, tier, rounds=1):
+    """every library block of py/blocks.py (catalogue + pairs), real objects, stimulus biased to extreme operands (all-ones, top bit) and with result
+    wires narrower/wider than the operands: range oracle on every wire of the hierarchy after construction and after every step."""
+    import random, blocks
+    for rd in range(rounds):
+        rng = random.Random(ctx.seed * 7 + 13 + rd)
+        for label, ins, outs, body in blocks.catalogue(rng, tier) + blocks.pair_catalogue(rng, tier):
+            try:
+                with quiet():
+                    hw, top = blocks.make_top('R_' + label, ins, outs, body)
+                    sim = hw.getSimulator()
+            except Exception:
+                continue
+            inw = {p.name: p.wire for p in top.inPorts}
+            bad = out_of_range(hw); hist = []
+            for t in range(10):
+                pk = [(n, rng.choice([(1 << w) - 1, 1 << (w - 1), (1 << w) - 2, rng.randrange(1 << w), rng.randrange(1 << w) | (1 << (w - 1))])) for n, w in ins]
+                hist.append(pk)
+                try:
+                    with quiet():
+                        for n, v in pk: inw[n].put(v)
+                        if t % 3 == 2: sim.propagateAll()
+                        else: sim.clk(1)
+                except Exception:
+                    break
+                if not bad: bad = out_of_range(hw)
+                if bad: break
+            ctx.count(('catalogue-range', label, tuple(ins)), n=len(hist))
+            if bad:
+                ctx.violation({'what': 'a wire holds a value outside [0, 2**width)', 'block': label, 'ports_in': ins, 'ports_out': outs, 'pokes_per_step': hist,
+                               'wire': bad[0][0], 'width': bad[0][1], 'value': bad[0][2],
+                               'replay_hint': 'blocks.make_top(label, ins, outs, <catalogue body>); poke the steps (every third step propagateAll(), else clk(1)); read the wire'})
+                return False
+    return True
+
+
 def run(ctx):
     ctx.cov['rule'] = ('obligations: theorems of Properties/C06.v over the regenerated Wire.put/prepare; correspondence cases: '
                        '(random design x stimulus step) and (primitive x widths x extreme operand); a case is distinct by its block list + wire widths '
@@ -192,13 +228,15 @@ def run(ctx):
     ok = seq_extremes(ctx) and sweep(ctx, nd, ns, with_model=r['ok'] or not missing)
     if ok and not missing:
         ok = extremes_on_primitives(ctx)
+    if ok:
+        ok = catalogue_sweep(ctx, ctx.tier)
     if ok and not tie_ok:
         # obligation or tie broken, and the search above found no wire out of range
         what = ('translator rejected %s: %s' % (missing, {k: ctx.gen['errors'].get(k) for k in missing}) if missing else
                 'a write to a wire value bypasses put/prepare: %s' % writers if writers else
                 'proof obligation no longer checks: %s in %s' % (r.get('lemma'), r.get('file')))
         if not ctx.quick or True:
-            ok2 = sweep(ctx, 60, 10, with_model=False)      # widen the search before giving up
+            ok2 = sweep(ctx, 60, 10, with_model=False) and catalogue_sweep(ctx, 'thorough', rounds=3)      # widen the search before giving up
             if not ok2: return
         ctx.violation({'what': what, 'theorem': r.get('lemma'), 'file': r.get('file'), 'coq_error': r.get('msg')}, found_input=False)
     ctx.assumptions += ['blocks write wires only through Wire.put / Wire.prepare (checked by the AST scan of py4hw/**.py on every run)',
